@@ -1,6 +1,7 @@
 package main
 
 import (
+	"regexp"
 	"encoding/base64"
 	"encoding/hex"
 	"encoding/json"
@@ -30,6 +31,9 @@ type c04Case struct {
 	Cfg    ProgCfg           `json:"cfg"`
 	Op     string            `json:"operation,omitempty"`
 	Args   []string          `json:"args,omitempty"`
+	// OpOmitFalse: the program has no @genqlient comment except `# @genqlient(omitempty: false)` in front of EVERY
+	// operation: no variable and no input-object field may then be tagged omitempty, whatever the configuration
+	OpOmitFalse bool `json:"op_omitempty_false,omitempty"`
 }
 
 func runC04(c *Ctx) {
@@ -61,10 +65,21 @@ func runC04(c *Ctx) {
 		seed := c.Seed*67867967 + uint64(i)
 		o := safeOpts
 		o.NoSubscriptions = true
+		o.NoDirectives = i%4 == 3 // every fourth program: no comments (i%8 == 3) or only operation-level omitempty: false (i%8 == 7)
 		p := gen.GenerateSeed(seed, o)
 		pr := progFromGen(p)
 		if p.Config.ClientGetter != "" {
 			pr.Cfg.ClientGetter = p.Config.ClientGetter
+		}
+		if i%8 == 7 {
+			for k, t := range pr.Ops {
+				pr.Ops[k] = c04OpLineRe.ReplaceAllString(t, "# @genqlient(omitempty: false)\n$1")
+			}
+			if i%16 == 15 {
+				pr.Cfg.StructReferences = true
+			}
+			cases = append(cases, c04Case{Seed: seed, Schema: pr.Schema, Ops: pr.Ops, Cfg: pr.Cfg, OpOmitFalse: true})
+			continue
 		}
 		cases = append(cases, c04Case{Seed: seed, Schema: pr.Schema, Ops: pr.Ops, Cfg: pr.Cfg})
 		if len(cases) >= 60 {
@@ -440,7 +455,7 @@ func c04Program(c *Ctx, b *Batch, pkg string, cs c04Case, src string, per int) {
 		}
 		// programs without any @genqlient comment: which variables and input-object fields are omitempty is then a
 		// function of the configuration alone (documented: only input-object-typed ones under use_struct_references)
-		if noDirectives(cs.Ops) {
+		if noDirectives(cs.Ops) || cs.OpOmitFalse {
 			c04DocumentedOmitempty(c, cs, schema, decls, inputName, op, fields)
 		}
 		for k := 0; k < per; k++ {
@@ -796,6 +811,8 @@ func c04Coerces(schema *ast.Schema, t *ast.Type, v any, path string) string {
 
 
 
+var c04OpLineRe = regexp.MustCompile(`(?m)^((?:query|mutation) )`)
+
 func noDirectives(ops map[string]string) bool {
 	for _, t := range ops {
 		if strings.Contains(t, "@genqlient") {
@@ -820,10 +837,15 @@ func c04DocumentedOmitempty(c *Ctx, cs c04Case, schema *ast.Schema, decls *goDec
 	check := func(where, gqlType string, got bool) {
 		d := schema.Types[gqlType]
 		want := cs.Cfg.StructReferences && d != nil && d.Kind == ast.InputObject
+		how := "with no @genqlient comment in the program"
+		if cs.OpOmitFalse {
+			want, how = false, "with `omitempty: false` on every operation and no other @genqlient comment"
+			c.Res.Count("documented-omitempty:explicit-false-compared")
+		}
 		c.Res.Count("documented-omitempty:compared")
 		if got != want {
-			c.Res.Add(proto.Finding{Kind: "violation", Class: "omitempty-not-documented", What: fmt.Sprintf("%s (GraphQL type %s) is tagged omitempty=%v; with no @genqlient comment in the program and use_struct_references=%v the documented value is %v",
-				where, gqlType, got, cs.Cfg.StructReferences, want), Case: cs})
+			c.Res.Add(proto.Finding{Kind: "violation", Class: "omitempty-not-documented", What: fmt.Sprintf("%s (GraphQL type %s) is tagged omitempty=%v; %s and use_struct_references=%v the documented value is %v",
+				where, gqlType, got, how, cs.Cfg.StructReferences, want), Case: cs})
 		}
 	}
 	for i, v := range op.VariableDefinitions {
